@@ -256,7 +256,7 @@ pub fn check(case: &Case, st: &mut Stats) -> Result<(), Violation> {
 }
 
 pub fn run(ctx: &Ctx, st: &mut Stats) -> Vec<Violation> {
-    let mut v = run_proptest(ctx, st, "random", ctx.cases(60_000, 600_000), strategy, check);
+    let mut v = run_proptest(ctx, st, "random", ctx.cases(60_000, 5_000_000), strategy, check);
     if !v.is_empty() {
         return v;
     }
@@ -276,7 +276,7 @@ fn lattice(ctx: &Ctx, st: &mut Stats) -> Vec<Violation> {
             }
         }
     }
-    let side: usize = if ctx.light { 16 } else { ctx.pick(40, 96) };
+    let side: usize = if ctx.light { 16 } else { ctx.pick(40, 128) };
     let quick = ctx.quick();
     let seed0 = ctx.seed;
     par_sweep(ctx, st, jobs.len() as u64, |lo, hi, st| {
@@ -306,7 +306,7 @@ fn lattice(ctx: &Ctx, st: &mut Stats) -> Vec<Violation> {
                 }
             }
             if !quick {
-                for chunk in 0..64u64 {
+                for chunk in 0..192u64 {
                     for stratum in [0u8, 3] {
                         let case = Case {
                             cfg: c,
